@@ -21,6 +21,13 @@ def parse_header(h):
     return ok, int(m.group(1))
 
 
+def eff(A):
+    """the announced length as the device's 32-bit int holds it"""
+    if A is None:
+        return None
+    return A % (1 << 32)
+
+
 class C18(F.Spec):
     pid = "C18"
     lean_module = "SuplaVerif.Props.C18"
@@ -85,20 +92,37 @@ class C18(F.Spec):
         if extra:
             ops.append("imgfill %d %d" % (extra, rng.randint(1, 1 << 30)))
         # header
-        hkind = rng.choice(["ok"] * 6 + ["limit", "limit", "lenless", "lenmore", "zero", "huge", "nonnum", "nolen", "404", "notype", "long"])
+        hkind = rng.choice(["ok"] * 6 + ["limit", "limit", "lenless", "lenmore", "zero", "huge", "nonnum", "nolen", "404", "notype", "long",
+                            "after", "after", "lfonly", "wrap", "dupe", "leadzero", "first"])
         A = {"lenless": max(1, L - rng.choice([1, 16, 528, 600])), "lenmore": L + rng.choice([1, 16, 4096]), "zero": 0,
              "limit": (SLOTS[m][2] if m in SLOTS else 503808) + rng.choice([0, 1, 1, 4096, 4097]),
-             "huge": rng.choice([2 ** 31, 2 ** 31 - 1, 2 ** 30 + 7, 1028097, 503809])}.get(hkind, L)
+             "huge": rng.choice([2 ** 31, 2 ** 31 - 1, 2 ** 30 + 7, 1028097, 503809]),
+             "wrap": L + rng.choice([1, 2, 7]) * 2 ** 32}.get(hkind, L)
         status = b"HTTP/1.1 404 Not Found" if hkind == "404" else b"HTTP/1.1 200 OK"
         lines = [status, b"Server: test", b"Content-Type: " + (b"text/html" if hkind == "notype" else b"application/octet-stream")]
         if hkind == "nonnum":
             lines.append(b"Content-Length: " + rng.choice([b"12ab", b"abc", b"-5", b" 77", b"0x100"]))
+        elif hkind == "leadzero":
+            lines.append(b"Content-Length: 000%d" % A)
+        elif hkind == "first":
+            lines.insert(1, b"Content-Length: %d" % A)
         elif hkind != "nolen":
             lines.append(b"Content-Length: %d" % A)
+        if hkind in ("after", "lfonly"):
+            # header lines behind Content-Length, also ones that begin with digits: they are not part of the length
+            for _ in range(rng.randint(1, 3)):
+                lines.append(rng.choice([b"Connection: close", b"9999999: x", b"1: y", b"77", b"0", b"8 Accept-Ranges: bytes",
+                                         b"Content-Length: 5"]))
+        if hkind == "dupe":
+            lines.append(b"Content-Length: %d" % rng.choice([5, L + 4096, 99999999]))
         if hkind == "long":
             lines.insert(1, b"X-Pad: " + b"p" * rng.choice([560, 640, 700, 900]))
         rng.shuffle(lines[1:]) if False else None
         hdr = b"\r\n".join(lines) + b"\r\n\r\n"
+        if hkind == "lfonly":
+            hdr = b"\r\n".join(lines[:3]) + b"\r\n" + b"\n".join(lines[3:]) + b"\r\n\r\n"
+        if hkind == "wrap":
+            A = L     # what the 32-bit accumulator holds
         # delivery plan
         total = L + extra if dkind == "overrun" else (rng.randint(0, max(0, min(A, L) - 1)) if dkind == "short" else min(L, max(A, 0)) if A <= L else L)
         if dkind == "exact" and A > L:
@@ -172,19 +196,32 @@ class C18(F.Spec):
                 nbody = int(t[3])
                 if not hdr_done:
                     hdr += hb
-                    if b"\r\n\r\n" in hdr and len(hdr) <= 699:
+                    if hb:
+                        ops.append("hdrseg %d %s" % (m, hb.hex()))
+                    cut = hdr.find(b"\r\n\r\n") + 4 if b"\r\n\r\n" in hdr else None
+                    if cut is not None and cut <= 699:
                         hdr_done = True
-                        ok, A = parse_header(hdr)
+                        began = any(x == "UPGFLAG 1" for x in g)
+                        e_impl = int(st[0].split("exp=")[1]) % (1 << 32) if st else 0
+                        for x in g:
+                            if x.startswith("EXP "):   # printed when the download starts (the state may be gone after the segment)
+                                e_impl = int(x.split()[1]) % (1 << 32)
+                        # the decision of the real scanner against the Lean model of it (Model/UpdHdr)
+                        exp.append(["SCAN %d %d" % (1 if began else 0, e_impl)])
+                        ok, A = parse_header(hdr[:cut])
+                        A = eff(A)
                         if ok and A is not None and A < 2 ** 31:
                             ops.append("gate %d %d" % (m, A))
-                            began = any(x == "UPGFLAG 1" for x in g)
                             exp.append(["GATE %d" % (1 if began else 0)])
-                            if began:
-                                started = True
-                                ops.append("start %d %d" % (slot, A))
-                                exp.append([])
-                    elif len(hdr) > 699:
-                        hdr_done = True
+                        if began:
+                            started = True
+                            ops.append("start %d %d" % (slot, e_impl))
+                            exp.append([])
+                    else:
+                        if hb:
+                            exp.append([])
+                        if len(hdr) > 699:
+                            hdr_done = True
                     if not started:
                         continue
                 if started and not faulty and st:
@@ -237,6 +274,9 @@ class C18(F.Spec):
                     if b"\r\n\r\n" in hdr or len(hdr) > 699:
                         hdr_done = True
                         ok, A = parse_header(hdr[:hdr.find(b"\r\n\r\n") + 4] if b"\r\n\r\n" in hdr else hdr)
+                        A = eff(A)   # a length beyond 32 bits: what the device holds is smaller, never larger
+                        if A is not None and A >= 2 ** 31:
+                            A = None
                 delivered += int(t[3])
             for x in g:
                 if "OOR" in x:
